@@ -76,15 +76,18 @@ def classify_code(ctx: Ctx, dialect: str) -> dict[int, str]:
     skip_if = None
     chain = None
     calls_disabled = False
+    byte_var = op_var = None
     for st in body:
         if isinstance(st, ast.If) and chain is None:
-            t = norm(st.test)
-            if "t" in {n.id for n in ast.walk(st.test) if isinstance(n, ast.Name)} and any(isinstance(c, ast.Call) and call_name(c) == "read_push_data" for s in st.body for c in ast.walk(s)):
-                push_if = st
-            elif "skip_execution" in t and any(isinstance(s, ast.Continue) for s in st.body):
+            pushes = [c for s_ in st.body for c in ast.walk(s_) if isinstance(c, ast.Call) and call_name(c) == "read_push_data"]
+            if pushes and pushes[0].args and isinstance(pushes[0].args[0], ast.Name) and push_if is None:
+                # the byte being dispatched is what the push reader is handed first
+                push_if, byte_var = st, pushes[0].args[0].id
+            elif push_if is not None and any(isinstance(s_, ast.Continue) for s_ in st.body) and skip_if is None:
                 skip_if = st
-            elif isinstance(st.test, ast.Compare) and norm(st.test.left) == "op":
-                chain = st
+            elif isinstance(st.test, ast.Compare) and isinstance(st.test.left, ast.Name) and isinstance(st.test.comparators[0], ast.Constant) \
+                    and isinstance(st.test.comparators[0].value, str) and st.test.comparators[0].value.startswith("OP_"):
+                chain, op_var = st, st.test.left.id
         if isinstance(st, ast.Expr) and isinstance(st.value, ast.Call) and call_name(st.value) == "assert_not_disabled":
             calls_disabled = True
     if push_if is None or skip_if is None or chain is None:
@@ -92,7 +95,7 @@ def classify_code(ctx: Ctx, dialect: str) -> dict[int, str]:
     # tapscript: the pre-scan refuses bytes that are neither pushes, OP_SUCCESS nor named
     out: dict[int, str] = {}
     for b in range(256):
-        env = {"t": b}
+        env = {byte_var: b}
         if ctx.fold(push_if.test, mi, env) is True:
             out[b] = "push"
             continue
@@ -109,7 +112,7 @@ def classify_code(ctx: Ctx, dialect: str) -> dict[int, str]:
                 out[b] = "always_bad"
             continue
         op = names[b]
-        env = {"t": b, "op": op, "OPERATIONS": operations}
+        env = {byte_var: b, op_var: op, "OPERATIONS": operations}
         arm = None
         cur: ast.stmt | None = chain
         while isinstance(cur, ast.If):
@@ -220,12 +223,16 @@ def rule_limits(ctx: Ctx, rep: Report) -> None:
     # both dispatch loops: pushes are 1..78, the op count starts above OP_16
     for dialect, modq in (("legacy", LEG), ("tapscript", TAP)):
         fi = ctx.func(f"{modq}._run_ops")
-        tests = [norm(n.test) for n in own_nodes(fi.node) if isinstance(n, ast.If)]
-        rep.ob(rule, f"{dialect}:push_range", "0 < t <= 78" in tests, fi.where(), "push opcodes are 0 < t <= 78")
+        pushes = [c for c in own_nodes(fi.node) if isinstance(c, ast.Call) and call_name(c) == "read_push_data" and c.args and isinstance(c.args[0], ast.Name)]
+        bv = pushes[0].args[0].id if pushes else "t"
+        tests = [str(norm(n.test)) for n in own_nodes(fi.node) if isinstance(n, ast.If)]
+        rep.ob(rule, f"{dialect}:push_range", f"0 < {bv} <= 78" in tests or f"1 <= {bv} <= 78" in tests or f"0 < {bv} < 79" in tests, fi.where(), "push opcodes are 0 < t <= 78")
     fi = ctx.func(f"{LEG}._run_ops")
+    pushes = [c for c in own_nodes(fi.node) if isinstance(c, ast.Call) and call_name(c) == "read_push_data" and c.args and isinstance(c.args[0], ast.Name)]
+    bv = pushes[0].args[0].id if pushes else "t"
     cnt = sorted([n for n in own_nodes(fi.node) if isinstance(n, ast.If) and len(n.body) == 1 and any(isinstance(c, ast.Call) and call_name(c) == "script_op_count" for s in n.body for c in ast.walk(s))
-                  and "t" in {x.id for x in ast.walk(n.test) if isinstance(x, ast.Name)}], key=lambda n: n.lineno)
-    okc = bool(cnt) and any(a.subject == "t" and (a.op, a.value) in ((">", 96), (">=", 97)) for a in atoms(ctx, fi, cnt[0].test, True))
+                  and bv in {x.id for x in ast.walk(n.test) if isinstance(x, ast.Name)}], key=lambda n: n.lineno)
+    okc = bool(cnt) and any(str(a.subject) == bv and (a.op, a.value) in ((">", 96), (">=", 97)) for a in atoms(ctx, fi, cnt[0].test, True))
     rep.ob(rule, "legacy:op_count_above_OP_16", okc, fi.where(), "ops counted for t > 96, executed or not (before the skip)")
     if cnt:
         skip = [n for n in own_nodes(fi.node) if isinstance(n, ast.If) and "skip_execution" in norm(n.test) and any(isinstance(s, ast.Continue) for s in n.body)]
@@ -430,7 +437,7 @@ def rule_error_class(ctx: Ctx, rep: Report) -> None:
     g = ctx.cfg(vt)
     cu = ctx.calls_to(vt, "taproot_unwrap_script", last=True)
     facts = g.facts_at_ast(cu[0]) if cu else frozenset()
-    rep.ob(rule, "_verify_taproot:unwrap_needs_two", ("len(stack) == 0", False) in facts and ("len(stack) == 1", False) in facts, vt.where(),
+    rep.ob(rule, "_verify_taproot:unwrap_needs_two", (PT.fact(facts, "len(stack) == 0", False) and PT.fact(facts, "len(stack) == 1", False)) or PT.fact(facts, "len(stack) < 2", False) or PT.fact(facts, "len(stack) >= 2", True), vt.where(),
            "taproot_unwrap_script is reached only with at least two stack elements")
     # KeyError-freedom of the tapscript name lookup: pre-scan refuses unnamed bytes
     pr = ctx.func("btclib.script.taproot.parse")
@@ -505,7 +512,7 @@ def rule_core_rows(ctx: Ctx, rep: Report) -> None:
     rep.ob(rule, "SIG_PUSHONLY(p2sh)", okp, vi.where(), "validate_push_only(script_sig) on the p2sh arm")
     w0 = ctx.func(f"{ENG}._verify_witness_v0")
     c0 = refusal_constraints(ctx, w0)
-    rep.ob(rule, "WITNESS_PROGRAM_MISMATCH", any(c.op == "!=" and "sha256(script)" in c.subject + c.value_text and "payload" in c.subject + c.value_text for c in c0), w0.where(), "payload != sha256(witness script) refused")
+    rep.ob(rule, "WITNESS_PROGRAM_MISMATCH", any(c.op == "!=" and "sha256(" in str(c.subject) + str(c.value_text) and "payload" in str(c.subject) + str(c.value_text) for c in c0), w0.where(), "payload != sha256(witness script) refused")
     rep.ob(rule, "WITNESS_PROGRAM_WITNESS_EMPTY", any(c.op == "falsy" and c.subject == "stack" for c in c0), w0.where(), "empty p2wsh witness refused")
     rep.ob(rule, "CLEANSTACK(witness)", any(c.op == "truthy" and c.subject == "stack" for c in c0), w0.where(), "a witness script must leave exactly one element")
     wp = ctx.func(f"{ENG}._verify_witness_program")
